@@ -26,6 +26,13 @@ AIMED = [
 ]
 
 
+def capacities(text, src):
+    """the memo capacities an input of the closed set is parsed with (first = the reference: unbounded)"""
+    if src == "capsweep":
+        return [None] + list(range(1, 321))          # EVERY capacity up to 320: a dependence confined to a few neighbouring capacities shows
+    return CAPS + (SMALL if len(text.encode()) <= 200 else [])
+
+
 def digest(t):
     return hashlib.sha1(t.encode()).hexdigest()[:12]
 
@@ -67,6 +74,20 @@ def closed_input_set():
                 ins.append(("sv", "%s\n%s%s\n`end_keywords\n%s\n" % (hd, bk, rest, pr), "region-in-trivia"))                       # opens inside
                 ins.append(("sv", "%s\n%s`end_keywords\n%s\n%s\n" % (hd, bk, rest, pr), "region-in-trivia"))                      # opens and closes inside
                 ins.append(("sv", "%s%s\n%s`end_keywords\n%s\n`end_keywords\n%s\n" % (bk, hd, bk, rest, pr), "region-in-trivia"))  # nested
+    # capacity sweep: small inputs, one per expression / statement form, parsed at EVERY capacity from 1 to 320 (round-3
+    # seeded change: a conditional expression was rejected at exactly three neighbouring capacities)
+    sweep_txt = ["module s; assign y = s ? a : b; endmodule\n", "module s; assign y = (s == 2'b01) ? {a0, a1, a2} : {b, c}; endmodule\n",
+                 "module s; assign y = a ? b ? c : d : e; endmodule\n", "module s; initial x = a + b * c - d; endmodule\n",
+                 "module s; initial if (a) x = 1; else x = 2; endmodule\n", "module s; initial case (a) 1: x = 1; default: x = 2; endcase endmodule\n",
+                 "module s; initial x = f(a, g(b)); endmodule\n", "module s; initial x = a.b.c[1].d; endmodule\n", "module s; initial x = {a, {2{b}}}; endmodule\n",
+                 "module s; initial x <= #1 a ? b : c; endmodule\n", "module s; wire [3:0] w = a ? 4'd1 : 4'd2; endmodule\n",
+                 "module s; initial for (int i = 0; i < 4; i++) x[i] = i ? a : b; endmodule\n", "module s; always @(posedge c) q <= r ? d : q; endmodule\n",
+                 "module s; sub #(.P(a ? 1 : 2)) u (.x(a ? b : c)); endmodule\n", "module s; function int f(int a); return a ? 1 : 0; endfunction endmodule\n",
+                 "class s; function new(); x = a ? b : c; endfunction endclass\n", "module s; initial x = a inside {1, [2:3]} ? b : c; endmodule\n",
+                 "module s; initial x = (a ? b : c) ? d : e; endmodule\n", "module s; initial begin x = a ? b : c; y = d ? e : f; end endmodule\n",
+                 "module s; assign y = a && b ? c | d : e ^ f; endmodule\n"]
+    for t in sweep_txt:
+        ins.append(("sv", t, "capsweep"))
     # deterministic order, duplicates removed
     seen = set()
     out = []
@@ -97,12 +118,12 @@ def run(tier, seed):
         # the seed only selects the sub-sample; aimed inputs always included
         idx = list(range(total))
         rng.shuffle(idx)
-        keep = set(idx[:350]) | {i for i, x in enumerate(ins) if x[2] in ("aimed", "directive-in-trivia", "region-in-trivia")}
+        keep = set(idx[:350]) | {i for i, x in enumerate(ins) if x[2] in ("aimed", "directive-in-trivia", "region-in-trivia", "capsweep")}
         ins = [x for i, x in enumerate(ins) if i in keep]
     hcases = []
     for i, (kind, text, src) in enumerate(ins):
         fn = "two_step_sv_str" if kind == "sv" else "two_step_lib_str"
-        caps = CAPS + (SMALL if len(text.encode()) <= 200 else [])
+        caps = capacities(text, src)
         calls = [{"fn": fn, "path": "t.sv", "text": text, "memo_cap": c, "hooks": ["begin_keywords"]} for c in caps]
         hcases.append({"id": i, "calls": calls, "fresh_each": True, "limit_ms": 3000 * len(caps) + 2000})
     vlib.log("C17: %d inputs of the closed set of %d" % (len(ins), total))
